@@ -89,8 +89,8 @@ Definition parse_action (ncols : N) (b : bytes) : ares :=
             let t := unle (firstn 2 h) in let i := unle (firstn 8 (skipn 2 h)) in let m := unle (skipn 10 h) in
             let n := (popcount 64 m * (if op =? log_insert_index then 8 else 16))%nat in
             if ncols <=? t / 256 then ABad
-            else if (op =? log_insert_index) && (2 ^ (t mod 256) <=? i) then ABad
-            else if (op =? log_insert_ref_count) && (2 ^ (t mod 256) <=? i) then ABad
+            else if (op =? log_insert_index) && (2 ^ (t mod 256) * index_validate_chunk_factor <=? i) then ABad
+            else if (op =? log_insert_ref_count) && (2 ^ (t mod 256) * refcount_validate_chunk_factor <=? i) then ABad
             else
             match take n r1 with
             | None => ABad      (* the payload is read by validate_plan: running out of bytes there is a validation error *)
